@@ -33,12 +33,15 @@ impl Prop for C05 {
         for _ in 0..(if th { 12 } else { 3 }) { v.push(case(&[("sc", "cli-unknown-sender".into()), ("seed", rng.next().to_string())])); }
         // the recipient is the keyring entry with EXACTLY the given name, also when other entries have names that look alike
         for _ in 0..(if th { 8 } else { 2 }) { v.push(case(&[("sc", "cli-addressed-name".into()), ("seed", rng.next().to_string())])); }
+        // the file arrives through a named pipe that can be read exactly once: the sender named must be the sender of the bytes that were decrypted
+        v.extend(crate::props::c12::C12.cases(tier, seed ^ 0x05).into_iter().filter(|c| get(c, "op") == "fifo-input" && get(c, "cmd") == "decrypt"));
         for (i, _) in LOW_ORDER.iter().enumerate() { for alias in ["plain", "highbit"] { for role in ["recipient", "ephemeral"] {
             v.push(case(&[("sc", "loworder".into()), ("idx", i.to_string()), ("alias", alias.into()), ("role", role.into()), ("seed", rng.next().to_string())]));
         } } }
         v
     }
     fn run(&self, c: &Case, m: &mut Model) -> Outcome {
+        if get(c, "op") == "fifo-input" { return crate::props::c12::C12.run(c, m); }
         let mut o = Outcome::default();
         let mut rng = Rng::new(get(c, "seed").parse().unwrap_or(0));
         let (s, s2, r, r2, e, pk) = (rng.bytes(32), rng.bytes(32), rng.bytes(32), rng.bytes(32), rng.bytes(32), rng.bytes(32));
